@@ -38,6 +38,11 @@ fn v(i: u32) -> B {
 
 /// Execute `hist` with recording and return the process-crash image at its end.
 fn build_base(name: &str, cfg: Config, hist: Vec<Ev>, keep_stale_after: Option<usize>) -> Base {
+	build_base_pm(name, cfg, hist, keep_stale_after, true)
+}
+
+/// `pm`: run the pipeline model in lock-step (it models sync_data = true only)
+fn build_base_pm(name: &str, cfg: Config, hist: Vec<Ev>, keep_stale_after: Option<usize>, pm: bool) -> Base {
 	let dir = worker_dir();
 	wipe_dir(&dir);
 	let txs: Vec<Tx> = hist.iter().filter_map(|e| if let Ev::Commit(t) = e { Some(t.clone()) } else { None }).collect();
@@ -46,7 +51,7 @@ fn build_base(name: &str, cfg: Config, hist: Vec<Ev>, keep_stale_after: Option<u
 		crash::start(&dir);
 		let mut ex = Exec::new(&dir, &cfg, universe.clone()).expect("base: open");
 		ex.record_prefix = true;
-		ex.pm.enabled = true;
+		ex.pm.enabled = pm;
 		let mut records: BTreeMap<String, Vec<(usize, u64, u64)>> = BTreeMap::new();
 		let mut logged = 0usize;
 		let mut stale = vec![];
@@ -103,7 +108,8 @@ fn build_base(name: &str, cfg: Config, hist: Vec<Ev>, keep_stale_after: Option<u
 				}
 			}
 		}
-		let enacted = ex.pm.enacted;
+		// (every record of these histories is a user commit, so the last enacted record id is the number of enacted commits)
+		let enacted = if pm { ex.pm.enacted } else { ex.digest().last_enacted as usize };
 		let ops = crash::stop();
 		let mut sh = Shadow::new();
 		for op in ops.iter() {
@@ -129,6 +135,8 @@ fn build_base(name: &str, cfg: Config, hist: Vec<Ev>, keep_stale_after: Option<u
 
 #[derive(Clone, Debug)]
 enum Mutation {
+	/// the crash image as it is
+	None,
 	Truncate(String, u64),
 	Flip(String, u64, u8),
 	Window(String, u64, u8),
@@ -145,6 +153,7 @@ enum Mutation {
 impl Mutation {
 	fn describe(&self) -> String {
 		match self {
+			Mutation::None => "undamaged crash image".to_string(),
 			Mutation::Truncate(f, l) => format!("{} truncated to {} bytes", f, l),
 			Mutation::Flip(f, b, bit) => format!("bit {} of byte {} of {} flipped", bit, b, f),
 			Mutation::Window(f, o, x) => format!("8 bytes at {} of {} set to {:#04x}", o, f, x),
@@ -161,7 +170,7 @@ impl Mutation {
 }
 
 fn mutations(b: &Base, thorough: bool) -> Vec<Mutation> {
-	let mut m = vec![];
+	let mut m = vec![Mutation::None];
 	let logs: Vec<String> = b.image.iter().filter(|(p, f)| p.starts_with("log") && f.len > 0).map(|(p, _)| p.clone()).collect();
 	for f in logs.iter() {
 		let len = b.image[f].len;
@@ -218,6 +227,7 @@ fn mutate(b: &Base, m: &Mutation) -> (Shadow, usize) {
 		}
 	};
 	let upper = match m {
+		Mutation::None => b.n,
 		Mutation::Truncate(f, l) => {
 			let len = img[f].len;
 			img.get_mut(f).unwrap().trunc(*l);
@@ -336,6 +346,18 @@ fn bases(thorough: bool) -> Vec<Base> {
 	out.push(build_base("hash+btree/3-files-none-enacted", kv.clone(), vec![c(m1.clone()), p.clone(), f.clone(), c(m2.clone()), p.clone(), f.clone(), c(m3.clone()), p.clone(), f.clone()], None));
 	{
 		out.push(build_base("hash+btree/2-of-3-enacted", kv, vec![c(m1), p.clone(), f.clone(), c(m2), p.clone(), f.clone(), e.clone(), e.clone(), e.clone(), c(m3), p.clone(), f.clone()], None));
+	}
+	{
+		// sync_data = false: the 16 most recent log files are kept after their records are in the tables (and replayed
+		// at open); 20 commits overwriting one key, each driven through the whole pipeline incl. cleanup
+		let mut lazy = Config::new(vec![ColSpec::hash()]);
+		lazy.sync_data = false;
+		let mut h = vec![];
+		for i in 0..20u32 {
+			h.push(c(vec![(0, Op::Set(k(1), v(i))), (0, Op::Set(k(2 + i % 2), v(i + 1)))]));
+			h.extend([p.clone(), f.clone(), e.clone(), e.clone(), kk.clone()]);
+		}
+		out.push(build_base_pm("hash/sync_data=false/20-commits-16-logs-kept", lazy, h, None, false));
 	}
 	if thorough {
 		let bt = Config::new(vec![ColSpec::btree()]);
